@@ -481,6 +481,24 @@ fn run_inner(sc: &J) -> Result<Option<String>, String> {
                 Err(e) => Ok(Some(format!("reading failed ({e}) where the rules prescribe {want:?}"))),
             }
         }
+        // C04: a spec-conforming file may contain a block with object count 0; the values of later blocks must still be read
+        "container_empty_block" => {
+            let schema = Schema::parse_str("\"long\"").map_err(|e| e.to_string())?;
+            let mut file = Vec::new();
+            {
+                let mut w = apache_avro::Writer::builder().schema(&schema).writer(&mut file).marker([7u8; 16]).build().map_err(|e| e.to_string())?;
+                w.flush().map_err(|e| e.to_string())?;
+            }
+            file.extend_from_slice(&[0, 0]); file.extend_from_slice(&[7u8; 16]);           // empty block: count 0, size 0, marker
+            file.extend_from_slice(&[4, 4, 2, 4]); file.extend_from_slice(&[7u8; 16]);     // block: 2 values, 2 bytes: 1, 2
+            match apache_avro::Reader::new(&file[..]) {
+                Ok(rd) => match rd.collect::<Result<Vec<Value>, _>>() {
+                    Ok(v) if v == vec![Value::Long(1), Value::Long(2)] => Ok(None),
+                    other => Ok(Some(format!("file with an empty block before a block of [1, 2] reads as {other:?}"))),
+                },
+                Err(e) => Ok(Some(format!("cannot open: {e}"))),
+            }
+        }
         k => Err(format!("unknown scenario kind {k:?}")),
     }
 }
